@@ -715,6 +715,11 @@ class SArr:
         n = 1
         for d in self.shape:
             n *= d
+        if self.ndim == 2 and not all(_dim_int(d) for d in self.shape):
+            # symbolic 2-D shape: element k is [k div width, k mod width] (a copy, as numpy's flatten)
+            src = self.frozen()
+            wd = _dimt(self.shape[1])
+            return SArr((n,), self.dtype, lambda idx: src.get((idx[0] / wd, idx[0] % wd)))
         return self.reshape((n,))
 
     def astype(self, dt, copy=True):
